@@ -621,6 +621,7 @@ class VectorContainer:
                 if isinstance(start, slice):
                     start = start.start
 
+            stop_is_label = '`' in stop
             if len(stop):
                 stop = resolve_index_in_span(stop)
 
@@ -630,8 +631,8 @@ class VectorContainer:
                     stop = stop.stop
 
             # Adjust for closed intervals on the right-hand side (mirroring
-            # `pandas`)
-            if isinstance(stop, int):
+            # `pandas`): labels only, positional stops keep their Python meaning
+            if stop_is_label and isinstance(stop, int):
                 stop += 1
 
             # Resolve third (`step`) argument
